@@ -35,6 +35,8 @@ fixed = [
     "fixed: property=C12 8faffaa a nested partial that starts a line of an indented partial without being standalone, or is the first thing written, lost the indentation of its first line – F13, F16",
     "fixed: property=C10 29c8d6e after a decorator replaced the context a missing path was delivered as null: strict mode accepted {{nope}} and missing helper arguments – F17",
     "fixed: property=C18 4485eb0 an error inside an inline partial / partial-block body was labelled with the including partial's name – F9",
+    "fixed: property=C13 e78d0f2 number literals with an exponent or more than 19 digits ({{h 108E-28}}) reached the helper one ulp away from the value written: serde_json was built without float_roundtrip – F18",
+    "fixed: property=C16 1035401 hash arguments were evaluated in HashMap order: with two failing arguments ({{> p k=(lookup nope 'x') x=(eq nope 1)}} in strict mode) render and render_template, or two runs of the same program, failed with different errors – F19",
 ]
 for k in known:
     k["signature"] = find(k["property"], k.pop("case_id"))
